@@ -68,7 +68,7 @@ DEPTH = {"quick": 4, "thorough": 6}
 CTX1 = {"a": {"b": 1}, "k": 1}
 CTX2 = {"k": 2, "c": [1, 2]}
 TINY = 2.0 ** -1074
-NUM = [1, -2, 0.5, 0.1, 1e16, -1e16, TINY, (3, CTX1), (4, CTX2)]
+NUM = [1, -2, 0.5, 0.1, 1e16, -1e16, TINY, (3, CTX1), (0, CTX2)]    # zero is a value like any other
 BENIGN = [1, -2, 0.5, 2.25, (3, CTX1), (4, CTX2)]
 VEC = [(1, 2), (-2, 0.5), (0.1, 1e16), ((3, -1e16), CTX1), ((4, TINY), CTX2)]
 STORE = [1, 0.5, (3, CTX1), (4, CTX2), (5, {"k": 1, "o": 2})]
